@@ -11,6 +11,7 @@ import Driver.C12
 import Driver.C09
 import Driver.C04
 import Driver.C05
+import Driver.C19
 open Driver
 
 /-- dispatch one request line; returns the output lines -/
@@ -34,6 +35,7 @@ def dispatch (line : String) : IO (List String) := do
   | "c09" :: args => cmdC09 args
   | "c04" :: args => cmdC04 args
   | "c05" :: args => cmdC05 args
+  | "c19" :: args => cmdC19 args
   | _ => return ["error unknown-command"]
 
 partial def loop (hin : IO.FS.Stream) (hout : IO.FS.Stream) : IO Unit := do
